@@ -366,7 +366,7 @@ func (w *World) synthesise(fs *FuncSpec) error {
 		lt     *LayoutType
 		suffix string
 		props  string
-	}{{doc, "", "C01,C02"}}
+	}{{doc, "", "C01,C02,C11"}}
 	if doc.Observed != nil && doc.Observed["extra_fields"] != nil {
 		// the code is known to implement a layout that deviates from the document (a listed known finding): the document
 		// layout remains the C02 obligation; round trip and every other clause are checked against the observed layout
@@ -379,7 +379,7 @@ func (w *World) synthesise(fs *FuncSpec) error {
 			lt     *LayoutType
 			suffix string
 			props  string
-		}{doc.withObserved(), "~observed", "C01,C02"})
+		}{doc.withObserved(), "~observed", "C01,C02,C11"})
 	}
 	gen := func(lt *LayoutType, suffix, props string, last bool) error {
 		lenMember, _ := lt.headerMembers(r)
